@@ -905,3 +905,35 @@ def assign_index_zero_rejected(F, rep, rule):
                   "%s::solve addresses its sink through `%s`: index 0 no longer fails (the overflow of `ix - 1` was the only rejection) - `x[0] = v` succeeds and overwrites element 1 instead of "
                   "leaving every binding unchanged" % (name, [show(e.target) for e in ws if SOFT.search(show(e.target))][:1]), "%s (%s)" % (name, crate), sample={"struct": name})
     rep.floor(rule, "assignment kernels with recognised writes", n, 60)
+
+
+# ---------------------------------------------------------------- C12-R7 the identity passthrough of a matrix annotation is taken only when no reshape is requested
+def c12_identity_passthrough_guard(F, rep):
+    from lib import guards as G
+    rep.rule("C12-R7", "matrix annotation fast path: the source matrix is handed back unchanged (ConvertMatPassthrough { out: source }) only under guards that say no reshape is "
+                       "requested - the target's shape list is empty (or equal to the source shape) - and the element kinds are equal; a looser test (e.g. `is_convertible_to`, which "
+                       "only compares element counts) returns a 1x4 matrix for `<[f64]:2,2>`")
+    n = 0
+    for it in F.syn("mech_interpreter.lib"):
+        if it["k"] != "fn" or not it.get("body"):
+            continue
+        for s, facts in G.sites(it["body"], "struct"):
+            if s[1].split("::")[-1] != "ConvertMatPassthrough":
+                continue
+            outs = [f[1] for f in s[2] if f[0] == "out"]
+            if not outs or not re.search(r"\bsource_value\b|\bsource\b|\barg\b", render(outs[0])) or re.search(r"\bconverted\b|\bout\b\)", render(outs[0]).replace("Ref::new(out)", "out)")):
+                continue
+            if not re.match(r"^Ref::new\((source_value|source|arg)\w*\.clone\(\)\)$", render(outs[0]).replace(" ", "")):
+                continue
+            n += 1
+            at = G.atoms(facts)
+            shape_ok = any(pol and c[0] == "mcall" and c[2] == "is_empty" and re.search(r"dims|shape", render(c[1])) for c, pol in at) or \
+                any(pol and c[0] == "bin" and c[1] == "==" and re.search(r"dims|shape", render(c[2])) and re.search(r"dims|shape", render(c[3])) for c, pol in at)
+            kind_ok = any(pol and c[0] == "bin" and c[1] == "==" and re.search(r"element_kind|elem_kind", render(c[2])) and re.search(r"element_kind|elem_kind", render(c[3])) for c, pol in at)
+            conds = [("" if pol else "!") + render(c)[:50] for c, pol in at if c[0] in ("mcall", "bin")]
+            ok = shape_ok and kind_ok
+            rep.check(ok, "C12-R7", "%s:identity-passthrough" % it["name"] if ok else "%s:identity-passthrough:%s" % (it["name"], "no-shape-guard" if not shape_ok else "no-kind-guard"),
+                      "%s returns the source matrix unchanged under %s: %s - an annotation that asks for another shape of equal element count (or another element kind) gets the source back as it is" % (
+                          it["name"], conds, "nothing says the requested shape is empty or equal to the source's" if not shape_ok else "the element kinds are not compared"),
+                      "%s (mech_interpreter.lib)" % it["name"], sample={"fn": it["name"], "guards": conds})
+    rep.floor("C12-R7", "identity passthrough sites", n, 1)
